@@ -19,6 +19,16 @@ import decgen  # noqa: E402
 import decpost  # noqa: E402
 
 
+def decpost_fl(x):
+    from vlib import fl
+    return fl(x) if isinstance(x, float) else x
+
+
+def decpost_prm(prm):
+    from vlib import fl
+    return [fl(x) if isinstance(x, float) else x for x in prm] if isinstance(prm, list) else prm
+
+
 def impl_main(mode, fin, fout):
     cases = json.loads(Path(fin).read_text())
     out = []
@@ -26,6 +36,24 @@ def impl_main(mode, fin, fout):
         try:
             p, warns = decpost.parse(c["text"], include_cc=c.get("include_cc", True))
             res = decpost.observe_tables(p)
+            # the same tables seen through build_decay_chains(m, stable_particles = all daughters of m): one entry per line
+            bad = []
+            seen = set()
+            for m, lines in res:
+                if m in seen:
+                    continue
+                seen.add(m)
+                ds = sorted({d for l in lines for d in l[1]})
+                try:
+                    ch = p.build_decay_chains(m, stable_particles=ds)
+                    got = [[decpost_fl(x["bf"]), list(x["fs"]), x["model"], decpost_prm(x["model_params"])] for x in ch[m]]
+                    want = [[l[0], l[1], l[2][7:] if l[2].startswith("PHOTOS ") else l[2], l[3]] for l in lines]
+                    if list(ch.keys()) != [m] or got != want:
+                        bad.append(m)
+                except Exception as e:  # noqa: BLE001
+                    bad.append(m + ":" + type(e).__name__)
+            if bad and mode != "oracle":
+                res = {"chain_view": bad}
             if mode == "oracle":
                 res = [p.list_decay_mother_names(), p.number_of_decays,
                        {m: p.list_decay_modes(m) for m in dict.fromkeys(p.list_decay_mother_names())}]
@@ -165,7 +193,9 @@ def main():
     if diffs or getattr(ck, "proof_failed", None):
         for i in (diffs or range(len(cases))):
             exp = spec_tables(cases[i]["stmts"])
-            if not vlib.veq(impl[i], exp):
+            if isinstance(impl[i], dict) and "chain_view" in impl[i]:
+                hits.append((cases[i], "build_decay_chains(m, stable_particles=all daughters) does not show the table of m: " + ", ".join(impl[i]["chain_view"][:3])))
+            elif not vlib.veq(impl[i], exp):
                 got_m = [t[0] for t in impl[i]] if isinstance(impl[i], list) else None
                 exp_m = [t[0] for t in exp]
                 if got_m is not None and sorted(got_m) == sorted(exp_m) and got_m != exp_m:
@@ -173,7 +203,7 @@ def main():
                 else:
                     hits.append((cases[i], "tables differ from what the file states"))
     vlib.std_failure(ck, "Props/C01.v", cases, diffs, impl, model, hits, "py/c01.py",
-                     sig_of=lambda c, v: "F13:order-after-identical-duplicate-block" if v.startswith("F13") else "oracle:" + v)
+                     sig_of=lambda c, v: "F13:order-after-identical-duplicate-block" if v.startswith("F13") else "oracle:" + v.split(": ")[0])
     sys.exit(ck.finish(assumptions=["texts are renderings of statement lists in the canonical layout of py/decgen.py (layout variation: C02)"]))
 
 
